@@ -689,34 +689,41 @@ if K < 0:
     K = -K  # the |K|-th data-moving call that is NOT a positioned page write: a copy of the finished file
 def alive():
     return gdb.selected_inferior().pid != 0
-if K == 0:
-    gdb.execute("ignore 1 1000000000")
-    gdb.execute("run")
-    print("VERIF-GDB count=%d" % (gdb.breakpoints()[0].hit_count // 2))
-else:
-    if K > 1:
-        gdb.execute("ignore 1 %d" % (2 * (K - 1)))
-    gdb.execute("run")
-    if not alive():
-        print("VERIF-GDB exited-before-cut")
+def main():
+    if K == 0:
+        gdb.execute("ignore 1 1000000000")
+        gdb.execute("run")
+        print("VERIF-GDB count=%d" % (gdb.breakpoints()[0].hit_count // 2))
     else:
-        subprocess.run(["prlimit", "--pid", str(gdb.selected_inferior().pid), "--fsize=%d:%d" % (LIMIT, LIMIT)], check=True)
-        gdb.execute("delete")
-        try:
-            gdb.execute("continue")
-        except gdb.error as e:
-            # the process went away while gdb was resuming it ("Couldn't get registers: No such process"):
-            # a death after the cut all the same, and what it left is judged like any other
-            print("VERIF-GDB died-after-cut")
-            gdb.execute("quit")
-        if alive():
-            try:
-                gdb.execute("kill")
-            except gdb.error as e:
-                pass
-            print("VERIF-GDB killed-at-limit")
+        if K > 1:
+            gdb.execute("ignore 1 %d" % (2 * (K - 1)))
+        gdb.execute("run")
+        if not alive():
+            print("VERIF-GDB exited-before-cut")
         else:
-            print("VERIF-GDB exited-after-cut")
+            subprocess.run(["prlimit", "--pid", str(gdb.selected_inferior().pid), "--fsize=%d:%d" % (LIMIT, LIMIT)], check=True)
+            gdb.execute("delete")
+            try:
+                gdb.execute("continue")
+            except gdb.error as e:
+                # the process went away while gdb was resuming it ("Couldn't get registers: No such process"):
+                # a death after the cut all the same, and what it left is judged like any other
+                print("VERIF-GDB died-after-cut")
+                return
+            if alive():
+                try:
+                    gdb.execute("kill")
+                except gdb.error as e:
+                    pass
+                print("VERIF-GDB killed-at-limit")
+            else:
+                print("VERIF-GDB exited-after-cut")
+try:
+    main()
+except Exception as e:
+    # gdb lost track of the process ("Couldn't get registers: No such process" when a thread or the process
+    # exits while gdb is resuming it): nothing is concluded from such a run
+    print("VERIF-GDB lost-process")
 `
 
 func gdbRun(c *Ctx, script string, k int, limit int64, args ...string) (string, error) {
@@ -767,6 +774,10 @@ func gdbCutRuns(c *Ctx, v *Verdict, cs *C06Case, finalSize int64, mode []string,
 		v.Count("gdb_run_too_slow_skipped", 1)
 		return nil, nil
 	}
+	if err == nil && res == "lost-process" {
+		v.Count("gdb_lost_process_not_judged", 1)
+		return nil, nil
+	}
 	if err != nil || !strings.HasPrefix(res, "count=") {
 		return nil, v.Harness("baseline run under gdb: %v: %s", err, clipStr(res, 400))
 	}
@@ -792,6 +803,11 @@ func gdbCutRuns(c *Ctx, v *Verdict, cs *C06Case, finalSize int64, mode []string,
 		}
 		if err != nil {
 			return nil, v.Harness("run under gdb (call %d of %d, limit %d): %v: %s", k, nsys, limit, err, clipStr(res, 800))
+		}
+		if res == "lost-process" {
+			v.Count("gdb_lost_process_not_judged", 1)
+			os.Remove(out)
+			continue
 		}
 		v.Count("fault_death_at_file_size_limit_runs", 1)
 		v.Count("gdb_"+strings.ReplaceAll(res, "-", "_"), 1)
